@@ -106,12 +106,14 @@ func vfC11Run(cs vfC11Case, res *vfC11Res) string {
 	fire := func() {
 		switch cs.Fault {
 		case "silence_c2s":
-			sess.c2s.setSilent(true)
+			sess.wire("c2s").setSilent(true)
 		case "silence_s2c":
-			sess.s2c.setSilent(true)
+			sess.wire("s2c").setSilent(true)
 		case "silence_both":
-			sess.c2s.setSilent(true)
-			sess.s2c.setSilent(true)
+			sess.wire("c2s").setSilent(true)
+			sess.wire("s2c").setSilent(true)
+		case "tunnel_break":
+			sess.breakTunnel()
 		case "client_write_error":
 			sess.c2s.mu.Lock()
 			writeFail = true
@@ -329,7 +331,7 @@ func TestVF_C11(t *testing.T) {
 	shard, shards := vfShard()
 	stride := vfEnvInt("VERIF_C11_STRIDE", 1)
 	seed := vfEnvInt("VERIF_SEED", 1)
-	for _, sc := range vfScenarios() {
+	for _, sc := range append(vfScenarios(), vfTunnelScenarios()...) {
 		sc.Cfg.Timeout = 2
 		nc, ns, msg := vfDryRun(sc)
 		if msg != "" {
@@ -337,11 +339,18 @@ func TestVF_C11(t *testing.T) {
 			t.Fatalf("%s", msg)
 		}
 		faults := []string{"silence_c2s", "silence_s2c", "silence_both", "client_write_error", "source_shrink", "source_remove"}
+		if sc.Sess.Tunnel {
+			// over the tunnel: either direction of the TCP connection goes silent, or the connection breaks
+			faults = []string{"silence_c2s", "silence_s2c", "silence_both", "tunnel_break"}
+		}
 		// source faults need files that outlast the sender's read-ahead (100 x 32 KiB), otherwise everything has been read
 		// before the first message passes: those cases use files 40 times larger
 		bigSc := sc
 		bigSc.Size *= 40
-		bnc, bns, bmsg := vfDryRun(bigSc)
+		bnc, bns, bmsg := 0, 0, ""
+		if !sc.Sess.Tunnel { // the tunnel scenarios have no source faults
+			bnc, bns, bmsg = vfDryRun(bigSc)
+		}
 		if bmsg != "" {
 			c.violation("dryrun", bigSc, bmsg)
 			t.Fatalf("%s", bmsg)
